@@ -1473,7 +1473,18 @@ def parse_rule_paths(ctx):
     return pr, en, en.run()
 
 
-def outcome_class(ctx, en, frame_mod_of, p):
+def const_class_table(prog, module, tab):
+    """`tab` (an expression, expanded) is a constant table whose values are
+    the two constant check classes."""
+    if isinstance(tab, (ast.Name, ast.Attribute)):
+        tab = prog.const_expr(module, tab, names_ok=True) or tab
+    return isinstance(tab, ast.Dict) and bool(tab.values) and all(
+        prog.resolve(module, v) in (CHECKS + '.TrueCheck',
+                                    CHECKS + '.FalseCheck')
+        for v in tab.values)
+
+
+def outcome_class(ctx, en, frame_mod_of, p, binding=None):
     """'true' / 'false' / other description for a path outcome."""
     prog = ctx.prog
     if p.outcome.kind == 'raise':
@@ -1481,6 +1492,10 @@ def outcome_class(ctx, en, frame_mod_of, p):
     if p.outcome.kind == 'end' or p.outcome.expr is None:
         return 'none'
     e = en.expand(p.outcome.expr)
+    if binding:
+        from ..absval import fold_table_lookup
+        e = fold_table_lookup(prog, frame_mod_of(p.outcome.frame), e,
+                              binding)
     if isinstance(e, ast.Call):
         mod = frame_mod_of(p.outcome.frame)
         r = prog.resolve(mod, e.func)
@@ -1531,7 +1546,8 @@ def check_const(ctx):
         for p, unk in feas:
             if _needs_separator(en2, p, prm):
                 continue        # unpacking split(':') of a colon-free text
-            outs.add(outcome_class(ctx, en2, lambda fr: pc.module, p))
+            outs.add(outcome_class(ctx, en2, lambda fr: pc.module, p,
+                                   {prm: av}))
         ok = outs == {want}
         n += 1
         ctx.ob('C01.CONST', ok, ctx.where(pc.module, pc.node), pc.qual,
